@@ -73,6 +73,8 @@ def run(ctx):
         if not sup["Fmon"]:
             ctx.count("F_without_monomials_skipped"); continue
         Utr = max(sup["Umon"]); Ftr = max(val for _, val in sup["Fmon"].values()); Vtr = Ftr / Utr
+        if not SC.finite([utr_b, vtr_b]):
+            ctx.count("nonfinite_tropical_value_skipped"); continue
         ut, vt = Fraction(b2f(utr_b)), Fraction(b2f(vtr_b))
         # ties between monomials make the greedy choice ambiguous only on a null set; compare values
         if abs(ut - Utr) > 32 * SC.EPS * Utr:
